@@ -186,6 +186,21 @@ def scen_repopulate(tick=False):
     return out
 
 
+def scen_tick_slots():
+    """one slot of the submission semaphore goes back for every reaped worker, whatever its exit status"""
+    out = []
+    for codes in itertools.product((None, 0, 155, 1, -9), repeat=2):
+        p = mkpool([0, 1], 2)
+        for w, c in zip(p._pool, codes):
+            w.exitcode = c
+        reaped = sum(1 for c in codes if c is not None)
+        p._maintain_pool()
+        if p._putlock.released != reaped:
+            out.append('_maintain_pool reaped %d workers (exit statuses %r) and released %d slots' % (
+                reaped, codes, p._putlock.released))
+    return out
+
+
 def scen_grow():
     out = []
     for n in range(0, 4):
@@ -248,7 +263,8 @@ def scen_active():
 
 
 SCEN = {'pool.Pool._avail_index': scen_avail, 'pool.Pool._create_worker_process': scen_create,
-        'pool.Pool._repopulate_pool': scen_repopulate, 'pool.Pool._maintain_pool': lambda: scen_repopulate(True),
+        'pool.Pool._repopulate_pool': scen_repopulate,
+        'pool.Pool._maintain_pool': lambda: scen_repopulate(True) + scen_tick_slots(),
         'pool.Pool.grow': scen_grow, 'pool.Pool.shrink': scen_shrink, 'pool.Pool._worker_active': scen_active,
         'pool.Pool._iterinactive': scen_active}
 
